@@ -4,6 +4,7 @@
 cd /verif || exit 2
 out=seeded/BENIGN.tmp; : > $out
 for d in "$@"; do
+  d=$(realpath $d)
   id=$(basename $d)
   cd /repo; git diff --quiet || { echo "/repo dirty"; exit 2; }
   git apply $d/patch.diff || { echo "| $id | patch does not apply | |" >> /verif/$out; continue; }
